@@ -9,6 +9,7 @@ CONSTANTS
   MaxKids = 2
   MaxChunks = 0
   MinMaxPropagation = TRUE
+  StreamsAwaited = TRUE
 VIEW view
 INVARIANT TypeOK
 INVARIANT PointerIsScope
